@@ -76,6 +76,24 @@ struct JSON {
       private:
         using JSONotation = JSONUtils::JSONotation_T<Char_T>;
 
+        // UnEscape() returns the whole length when the input ends before the closing quote;
+        // a string is closed only if its last unit is a quote that is not escaped.
+        static bool isClosedString(const Char_T *str, SizeT len) noexcept {
+            if ((len == 0) || (str[len - SizeT{1}] != JSONotation::QuoteChar)) {
+                return false;
+            }
+
+            SizeT index   = (len - SizeT{1});
+            SizeT slashes = 0;
+
+            while ((index != 0) && (str[index - SizeT{1}] == JSONotation::BSlashChar)) {
+                ++slashes;
+                --index;
+            }
+
+            return ((slashes & SizeT{1}) == 0);
+        }
+
         static ValueT parseObject(Stream_T &stream, const Char_T *content, SizeT &offset, const SizeT length) {
             using ObjectT = typename ValueT::ObjectT;
 
@@ -91,7 +109,7 @@ struct JSON {
                     const Char_T *str = (content + offset);
                     SizeT         len = JSONUtils::UnEscape(str, (length - offset), stream);
 
-                    if (len != 0) {
+                    if ((len != 0) && isClosedString(str, len)) {
                         offset += len;
                         --len;
 
@@ -203,7 +221,7 @@ struct JSON {
                     const Char_T *str = (content + offset);
                     SizeT         len = JSONUtils::UnEscape(str, (length - offset), stream);
 
-                    if (len != 0) {
+                    if ((len != 0) && isClosedString(str, len)) {
                         offset += len;
                         --len;
 
